@@ -43,11 +43,11 @@ def P(cfgset, maxlen, maxpub, gaps):
 PLAN = {
     "C09": dict(
         mc={"quick": [P("two", 9, 5, (2, 3)), P("three", 7, 4, (2, 3))],
-            "thorough": [P("two", 11, 6, (1, 2, 3)), P("three", 9, 5, (2, 3)), P("four", 8, 4, (2, 3)),
-                         P("one", 12, 7, (1, 2, 3, 4))]},
+            "thorough": [P("two", 10, 5, (1, 2, 3)), P("three", 9, 5, (2, 3)), P("four", 8, 4, (2, 3)),
+                         P("one", 11, 6, (1, 2, 3))]},
         gen={"quick": [(P("two", 5, 3, (2, 3)), None, 6000), (P("three", 12, 6, (1, 2, 3, 4)), 1500, 3000)],
              "thorough": [(P("two", 5, 3, (2, 3)), None, None), (P("one", 6, 4, (1, 2)), None, None),
-                          (P("three", 14, 7, (1, 2, 3, 4)), 20000, None), (P("four", 16, 8, (1, 2, 3, 4)), 20000, None)]},
+                          (P("three", 14, 7, (1, 2, 3, 4)), 10000, None), (P("four", 16, 8, (1, 2, 3, 4)), 10000, None)]},
         neg=[(P("two", 7, 4, (2, 3)), "evict-head", ["InvServe"]), (P("two", 7, 4, (2, 3)), "no-evict", ["InvBound"])]),
     "C10": dict(
         mc={"quick": [P("one", 9, 5, (2, 3)), P("masked", 7, 4, (2, 3))],
